@@ -273,6 +273,9 @@ class TypeInfoVisitor(DispatchingVisitor):
     @property
     def parent_input_type(self) -> Optional[InputObjectType]:
         t = _peek(self._input_type_stack, 2)
+        # The enclosing position may be typed `In!`, `[In]`, ... when the
+        # object literal stands for a non-null or a (single item) list value.
+        t = unwrap_type(t) if t is not None else None
         return t if isinstance(t, InputObjectType) else None
 
     @property
